@@ -191,7 +191,8 @@ theorem xmitB1Reneg_inv (x : LgXmit) (num szx : Nat) (hinv : XmitInv x) (hlen : 
 /-- the client's lg_xmit stays well formed over every response that does not ask for a larger block size -/
 theorem xmitB1Step_inv (x : LgXmit) (room : Nat) (ok : Bool) (blk : Option (Nat × Nat)) (x' : LgXmit)
     (hinv : XmitInv x) (hlen : x.data.length < 2 ^ 32) (hblk : ∀ num szx, blk = some (num, szx) → szx ≤ x.blkSize)
-    (h : (xmitB1Step x room ok blk).1 = some x') : XmitInv x' ∧ x'.data = x.data ∧ x'.blkSize ≤ x.blkSize := by
+    (h : (xmitB1Step x room ok blk).1 = some x') :
+    XmitInv x' ∧ x'.data = x.data ∧ x'.blkSize ≤ x.blkSize ∧ ∃ num szx, blk = some (num, szx) ∧ x'.blkSize = szx := by
   unfold xmitB1Step at h
   cases ok with
   | false => simp only at h; cases h
@@ -214,7 +215,7 @@ theorem xmitB1Step_inv (x : LgXmit) (room : Nat) (ok : Bool) (blk : Option (Nat 
       by_cases hd : isDupAck x1.lastBlock num = true
       · rw [if_pos hd] at h
         cases h
-        exact ⟨⟨j1, j2, j3⟩, r2, by omega⟩
+        exact ⟨⟨j1, j2, j3⟩, r2, by omega, num0, szx, rfl, r1⟩
       · rw [if_neg hd] at h
         by_cases hlt : (num + 1) * 2 ^ (x1.blkSize + 4) < x1.data.length
         · rw [if_pos hlt] at h
@@ -228,7 +229,7 @@ theorem xmitB1Step_inv (x : LgXmit) (room : Nat) (ok : Bool) (blk : Option (Nat 
             · rw [if_neg hroom] at h
               cases h
               have hc : 2 ^ (x1.blkSize + 4) ≤ 2 ^ 10 := Nat.pow_le_pow_right (by decide) (by omega)
-              refine ⟨⟨?_, ?_, j3⟩, r2, by show x1.blkSize ≤ x.blkSize; omega⟩
+              refine ⟨⟨?_, ?_, j3⟩, r2, by show x1.blkSize ≤ x.blkSize; omega, num0, szx, rfl, r1⟩
               · show (num + 1) * 2 ^ (x1.blkSize + 4) % 2 ^ (x1.blkSize + 4) = 0
                 exact Nat.mul_mod_left _ _
               · show (num + 1) * 2 ^ (x1.blkSize + 4) + 2 ^ (x1.blkSize + 4) ≤ x1.data.length + 1024
@@ -534,5 +535,45 @@ theorem blkOpt_le_43 (d x : Nat) : optEncodeSize d (varLen x) ≤ 43 := by
   have e1 : ¬ (varLen x ≥ 13) := by omega
   simp only [e1, if_false]
   split <;> (try split) <;> omega
+
+
+theorem adlBlkSize_le6 (A : Int) : adlBlkSize A ≤ 6 := by
+  unfold adlBlkSize
+  dsimp only
+  generalize ((((if A < 0 then (64 : Int) else ((flsll A.toNat : Nat) : Int)) - 5) % 256).toNat) = b
+  split <;> omega
+
+/-- `coap_add_data_large_request`: a multi-block result carries Block1 (0, 1, lg_xmit size ≤ 6) and one full block -/
+theorem addDataLarge_first (maxSize tokLen optBytes lastOpt : Nat) (blk : Option Nat) (maxBlk length rtagLen : Nat)
+    (r : AdlRes) (hms : maxSize < 2 ^ 62) (hlen : length < 2 ^ 32)
+    (h : addDataLarge maxSize tokLen optBytes lastOpt blk maxBlk length rtagLen = some r) (hlg : r.lgXmit = true) :
+    r.blockVal = some (blockValue 0 1 r.blkSize) ∧ r.payload = 2 ^ (r.blkSize + 4) ∧
+    2 ^ (r.blkSize + 4) < length ∧ r.blkSize ≤ 6 := by
+  unfold addDataLarge at h
+  dsimp only at h
+  cases blk with
+  | none =>
+    simp only at h
+    have hb : (if maxBlk ≠ 0 ∧ adlBlkSize (adlAvail maxSize (tokLen + optBytes + 0) tokLen) > maxBlk then maxBlk
+        else adlBlkSize (adlAvail maxSize (tokLen + optBytes + 0) tokLen)) ≤
+        adlBlkSize (adlAvail maxSize (tokLen + optBytes + 0) tokLen) := by split <;> omega
+    obtain ⟨a, b, c, d⟩ := adlBody_first _ _ _ _ _ _ _ _ _ r hms hlen (by omega)
+      (by intro h16
+          exact adl_b2_le _ _ hb h16 (by rw [adlAvail_eq]; omega)) h hlg
+    have := adlBlkSize_le6 (adlAvail maxSize (tokLen + optBytes + 0) tokLen)
+    exact ⟨a, b, c, by omega⟩
+  | some s =>
+    simp only at h
+    have ho := blkOpt_le_43 (27 - lastOpt) (blockValue 0 0 s)
+    generalize hA : adlAvail maxSize (tokLen + optBytes + optEncodeSize (27 - lastOpt) (varLen (blockValue 0 0 s))) tokLen = A at h
+    have hb : (if s < (if maxBlk ≠ 0 ∧ adlBlkSize A > maxBlk then maxBlk else adlBlkSize A) then s
+        else (if maxBlk ≠ 0 ∧ adlBlkSize A > maxBlk then maxBlk else adlBlkSize A)) ≤ adlBlkSize A := by
+      split <;> split <;> omega
+    obtain ⟨a, b, c, d⟩ := adlBody_first _ _ _ _ _ _ _ _ _ r hms hlen (by omega)
+      (by intro h16
+          rw [hA] at h16 ⊢
+          exact adl_b2_le _ _ hb h16 (by rw [← hA, adlAvail_eq]; omega)) h hlg
+    have := adlBlkSize_le6 A
+    exact ⟨a, b, c, by omega⟩
 
 end Coap.Block
